@@ -11,7 +11,7 @@
                   records added - owner labels, type, class with cache-flush bit, TTL, RDATA
                   with the names inside PTR/SRV RDATA as label lists. *)
 From Coq Require Import List NArith Bool.
-From Mdns Require Import Res Bytes Utf8 Rec Wire WireOut Rfc1035 C02Spec WireOutProofs DecRefProofs.
+From Mdns Require Import Res Bytes Utf8 Rec Wire WireOut Rfc1035 C02Spec WireOutProofs DecRefProofs EscapeProofs.
 Import ListNotations.
 Open Scope N_scope.
 
@@ -46,6 +46,14 @@ Theorem C02_write_labels_correct : forall t d ls,
     /\ forall x, ref_name (d ++ bs ++ x) (blen d) = Some (ls, blen d + blen bs).
 Proof. exact write_labels_correct. Qed.
 
+(* Instance-name escaping on registration (ServiceInfo::new builds "<escape(instance)>.<type>"):
+   for EVERY non-empty instance label - dots, backslashes, any bytes - the encoder's
+   escape-aware label split of the full name gives back exactly that label followed by the
+   labels of the type domain. *)
+Theorem C02_instance_escape_roundtrip : forall l ty, l <> [] ->
+  name_labels (escape_label l ++ DOT :: ty ++ [DOT]) = l :: name_labels (ty ++ [DOT]).
+Proof. exact fullname_labels. Qed.
+
 (* Non-vacuity: a response with a question, PTR + SRV answers sharing suffixes (compression
    pointers are emitted), an escaped dot in the instance label, and an address additional is
    well-formed, fits, encodes, and passes the checker. *)
@@ -68,3 +76,4 @@ Print Assumptions C02_encode_total.
 Print Assumptions C02_encode_roundtrip.
 Print Assumptions C02_decoder_agrees_with_reference.
 Print Assumptions C02_write_labels_correct.
+Print Assumptions C02_instance_escape_roundtrip.
